@@ -7,7 +7,7 @@ import typing_h as T
 
 TABLES = ["Kits"]
 LAKE_TARGETS = ["Moclo.Props.C11", "Moclo.Tables.Kits"]
-THEOREMS = ["Moclo.C11." + t for t in ["kit_vectors_next_level", "vector_flanks", "product_shape", "ytk_structures", "ytk_product_layout", "ytk_pair"]] + ["Moclo.C01.module_canonical"]
+THEOREMS = ["Moclo.C11." + t for t in ["kit_vectors_next_level", "vector_flanks", "product_shape", "ytk_structures", "ytk_product_layout", "ytk_pair", "product_enters_next_level"]] + ["Moclo.C01.module_canonical"]
 RULE = ("for each (vector class, module class, next-level class) triple of the kits: vectors instantiating the vector "
         "structure with random letters, chains of 1-3 inserts of the module class, all at random rotations, such "
         "that each plasmid has exactly its two sites and the product exactly the two next-level sites; the product "
